@@ -3,11 +3,11 @@ import SuxModel.BitVec.Model
 /-!
 # Bit-vector facts used by the Elias–Fano proofs
 
-`SuxModel/Base/BitsLemmas.lean` (imported by the `BitVec` lemma files) and
-`SuxModel/Base/BitsLemmasBFV.lean` (imported by the `BitFieldVec` lemma files) declare the same
-names, so the two lemma families cannot be imported together.  The Elias–Fano proofs need the
-`BitFieldVec` family wholesale and only a handful of facts about `BitVec` / `ctz`; those are proved
-here again (namespace `Sux.EF`) on top of `BitsLemmasBFV` only:
+Self-contained re-statements (namespace `Sux.EF`, on top of `Base/BitsLemmasBFV.lean` only) of the
+few facts about `BitVec` / `ctz` that the Elias–Fano proofs need.  They were written when the
+`BitVec` and `BitFieldVec` lemma families could not be imported together (duplicate names in the two
+`Base/BitsLemmas*` files, since resolved); they are kept because they are specialised to what the
+Elias–Fano loops use (`neg = false`, `nextOne_spec`):
 
 * `ctz` is the least set bit; `w &&& (w - 1)` clears exactly that bit;
 * `BV.new` is all zeros, `BV.set … true` sets exactly one bit;
